@@ -287,6 +287,35 @@ theorem timestamp_roundtrip (ts : Nat) (h : ts < 253402300800) : parseHttpDate (
 /-- the bound is sharp: the first second of year 10000 does not fit the four-digit year -/
 example : parseHttpDate (formatTimestamp 253402300800) ≠ some 253402300800 := by decide
 
+/-- a time tuple `time.gmtime(ts)` formats like the integer `ts` (`calendar.timegm` inverts `gmtime`) -/
+theorem tuple_timestamp (ts : Nat) :
+    formatTimestampTuple (civilFromDays (ts / 86400)).1 (civilFromDays (ts / 86400)).2.1 (civilFromDays (ts / 86400)).2.2
+      (ts % 86400 / 3600) (ts % 86400 / 60 % 60) (ts % 86400 % 60) = formatTimestamp ts := by
+  unfold formatTimestampTuple
+  rw [timegm_fields]
+
+/-- a NAIVE `datetime` is read as UTC: holding the UTC wall-clock fields of `ts` it formats like the integer `ts` and so
+    round-trips — whatever the process time zone, which is not an input of the model -/
+theorem datetime_naive_roundtrip (ts : Nat) (h : ts < 253402300800) :
+    formatTimestampDT (dateTimeAt ts none) = .ok (formatTimestamp ts) ∧ parseHttpDate (formatTimestamp ts) = some ts :=
+  ⟨formatTimestampDT_naive_proof ts h, timestamp_roundtrip_proof ts h⟩
+
+/-- an AWARE `datetime` showing the instant `ts` on a wall clock `off` seconds ahead of UTC (`loc = ts + off`, wall-clock
+    year 1970–9999) formats like the integer `ts` and round-trips -/
+theorem datetime_aware_roundtrip (ts loc : Nat) (off : Int) (hloc : (loc : Int) = ts + off) (h : ts < 253402300800)
+    (hl : loc < 253402300800) :
+    formatTimestampDT (dateTimeAt loc (some off)) = .ok (formatTimestamp ts) ∧ parseHttpDate (formatTimestamp ts) = some ts :=
+  ⟨formatTimestampDT_aware_proof ts loc off hloc hl, timestamp_roundtrip_proof ts h⟩
+
+/-- non-vacuity: 2013-01-27 18:43:20 UTC as naive fields, at -05:00 (13:43:20) and at +05:45 (2013-01-28 00:28:20) -/
+example : dateTimeAt 1359312200 none = ⟨2013, 1, 27, 18, 43, 20, none⟩ ∧
+    dateTimeAt 1359294200 (some (-18000)) = ⟨2013, 1, 27, 13, 43, 20, some (-18000)⟩ ∧
+    dateTimeAt 1359332900 (some 20700) = ⟨2013, 1, 28, 0, 28, 20, some 20700⟩ ∧
+    ((1359294200 : Nat) : Int) = (1359312200 : Nat) + (-18000) ∧ ((1359332900 : Nat) : Int) = (1359312200 : Nat) + 20700 := by
+  decide
+example : (formatTimestampDT ⟨2013, 1, 27, 13, 43, 20, some (-18000)⟩).toOption = some (ofAscii "Sun, 27 Jan 2013 18:43:20 GMT") := by decide
+example : (formatTimestampDT ⟨2013, 1, 27, 18, 43, 20, none⟩).toOption = some (ofAscii "Sun, 27 Jan 2013 18:43:20 GMT") := by decide
+
 /-- `url_concat` keeps the part before the query and the fragment, keeps the existing pairs and appends the arguments
     in order (text without lone surrogates) -/
 theorem url_concat_preserves (url : Str) (args : List (Str × Str)) (hurl : url.all Wire.isScalar = true)
